@@ -555,7 +555,11 @@ class DiskHarness(object):
         self.tmp_dir = os.path.join(self.root, 'tmp')
         for d in (self.env_dir, self.meta_dir, self.tmp_dir):
             os.mkdir(d)
-        self.saved = {k: getattr(ds, k) for k in ('mkstemp', 'aio_read', 'aio_write', 'os', 'uuid', 'pickle')}
+        # a primitive the module no longer imports is recorded as absent (and removed again on exit);
+        # the effect log then differs from the model's, which is reported as a correspondence break
+        _absent = object()
+        self._absent = _absent
+        self.saved = {k: getattr(ds, k, _absent) for k in ('mkstemp', 'aio_read', 'aio_write', 'os', 'uuid', 'pickle')}
         self.saved_chunk = ds.AioFile.chunk_size
         ds.mkstemp = self._mkstemp
         ds.aio_read = self._aio_read
@@ -571,7 +575,11 @@ class DiskHarness(object):
     def __exit__(self, *exc):
         ds = self.ds
         for k, v in self.saved.items():
-            setattr(ds, k, v)
+            if v is self._absent:
+                if hasattr(ds, k):
+                    delattr(ds, k)
+            else:
+                setattr(ds, k, v)
         ds.AioFile.chunk_size = self.saved_chunk
         shutil.rmtree(self.root, ignore_errors=True)
         return False
